@@ -56,6 +56,19 @@ type pool struct {
 	label map[string]string
 }
 
+// byName lists the pool's cids ordered by their run-independent names (unique by construction).
+func (p *pool) byName() []string {
+	out := append([]string{}, p.order...)
+	sort.Slice(out, func(i, j int) bool {
+		a, b := p.label[out[i]], p.label[out[j]]
+		if a != b {
+			return a < b
+		}
+		return out[i] < out[j]
+	})
+	return out
+}
+
 // name returns the run-independent name of a block.
 func (p *pool) name(k string) string {
 	if l, ok := p.label[k]; ok {
@@ -187,6 +200,49 @@ func (p *pool) refVerify(k string) (bool, bool, string, string) {
 	return true, false, idStr, "unknown signature type " + s.Header.Type
 }
 
+// refVerifyWithKey is the independent counterpart of "verify under this key": the header names the key
+// and the value is that key's signature over the block without signature link. The header's type
+// field plays no role here (the key decides the algorithm).
+func (p *pool) refVerifyWithKey(k string, id Ident) (bool, string) {
+	b := p.block(k)
+	if b.Signature == nil {
+		return false, "no signature link"
+	}
+	sraw, ok := p.raw[b.Signature.Cid.String()]
+	if !ok {
+		return false, "signature block missing"
+	}
+	s, err := coreblock.GetSignatureBlockFromBytes(sraw)
+	if err != nil {
+		return false, "signature block undecodable"
+	}
+	pubStr := seedKey(id).GetPublic().String()
+	if string(s.Header.Identity) != pubStr {
+		return false, "header identity is another key"
+	}
+	pub, _ := hex.DecodeString(pubStr)
+	msg := signedBytes(b)
+	if id.KeyType == "ed25519" {
+		if ed25519.Verify(ed25519.PublicKey(pub), msg, s.Value) {
+			return true, ""
+		}
+		return false, "ed25519 verification failed"
+	}
+	pk, err := secp256k1.ParsePubKey(pub)
+	if err != nil {
+		hx.Harnessf("own key does not parse: %v", err)
+	}
+	sig, err := secpecdsa.ParseDERSignature(s.Value)
+	if err != nil {
+		return false, "bad DER signature"
+	}
+	h := sha256.Sum256(msg)
+	if sig.Verify(h[:], pk) {
+		return true, ""
+	}
+	return false, "ecdsa verification failed"
+}
+
 // signWith produces a signature block for b by the given key (header consistent with the key).
 func signWith(b *coreblock.Block, id Ident) *coreblock.Signature {
 	pk := seedKey(id)
@@ -208,23 +264,28 @@ type reach struct {
 }
 
 func (p *pool) closure(root string) (dag []reach, sigs []string) {
+	// breadth-first by levels; inside a level blocks are ordered by name and a block's parent on the
+	// recorded path is the first parent in that order, so that the result does not depend on cid values
 	seen := map[string]bool{root: true}
-	q := []reach{{cid: root}}
-	for len(q) > 0 {
-		r := q[0]
-		q = q[1:]
-		dag = append(dag, r)
-		b := p.block(r.cid)
-		if b.Signature != nil {
-			sigs = append(sigs, b.Signature.Cid.String())
-		}
-		for _, l := range b.AllLinks() {
-			k := l.Cid.String()
-			if !seen[k] {
-				seen[k] = true
-				q = append(q, reach{cid: k, depth: r.depth + 1, via: r.cid})
+	level := []reach{{cid: root}}
+	for len(level) > 0 {
+		sort.Slice(level, func(i, j int) bool { return p.name(level[i].cid) < p.name(level[j].cid) })
+		next := []reach{}
+		for _, r := range level {
+			dag = append(dag, r)
+			b := p.block(r.cid)
+			if b.Signature != nil {
+				sigs = append(sigs, b.Signature.Cid.String())
+			}
+			for _, l := range b.AllLinks() {
+				k := l.Cid.String()
+				if !seen[k] {
+					seen[k] = true
+					next = append(next, reach{cid: k, depth: r.depth + 1, via: r.cid})
+				}
 			}
 		}
+		level = next
 	}
 	return dag, sigs
 }
@@ -323,10 +384,10 @@ func mutString(s string, arg int) string {
 	return string(r)
 }
 
-// candidates lists honest DAG blocks other than the excluded ones, in pool order.
+// candidates lists honest DAG blocks other than the excluded ones, in name order.
 func (p *pool) candidates(exclude map[string]bool, pred func(*coreblock.Block) bool) []string {
 	out := []string{}
-	for _, k := range p.order {
+	for _, k := range p.byName() {
 		if p.isSig[k] || p.forged[k] || exclude[k] {
 			continue
 		}
@@ -579,7 +640,7 @@ func (p *pool) tamperBlock(target string, kind string, arg int, otherDocIDs []st
 	case kSigSwap:
 		cur := b.Signature.Cid.String()
 		cands := []string{}
-		for _, k := range p.order {
+		for _, k := range p.byName() {
 			if p.isSig[k] && !p.forged[k] && k != cur {
 				cands = append(cands, k)
 			}
